@@ -698,12 +698,20 @@ def A6_rotation_gate(repo, clause):
         if isinstance(n, ast.Assign) and len(n.targets) == 1 and isinstance(n.targets[0], ast.Name) and isinstance(n.value, ast.Call) \
                 and call_name(n.value) == "copy" and len([a for a in fn.ancestors(n) if isinstance(a, ast.For)]) >= 2:
             chk = n.targets[0].id
-    if chk is None:
+    # ... or, without a copy, the rotated pattern positions as a plain array: <rotation>.apply(pattern.positions) + origin
+    rotated_exprs = chk is None and any(isinstance(x, ast.Call) and isinstance(x.func, ast.Attribute) and x.func.attr == "apply" for x in fn.own_nodes())
+    if chk is None and not rotated_exprs:
         raise AnalysisError("A6: per-candidate copy of the pattern (rotation re-check) not found in find_pattern_in_structure")
+    if chk is None:
+        chk = "<rotated pattern positions>"
 
     def mentions_chk(e):
+        ee = expand(fn, e, stop_names=[chk])
+        if rotated_exprs:
+            return any(isinstance(x, ast.Call) and call_name(x) in CLOSENESS for x in ast.walk(ee)) and \
+                any(isinstance(x, ast.Call) and isinstance(x.func, ast.Attribute) and x.func.attr == "apply" for x in ast.walk(ee))
         return any(isinstance(x, ast.Attribute) and x.attr == "positions" and isinstance(x.value, ast.Name) and x.value.id == chk
-                   for x in ast.walk(expand(fn, e, stop_names=[chk])))
+                   for x in ast.walk(ee))
     # accepted list: appends guarded (positively) by a test that reads the checked copy's positions
     acc = []
     gate = None
@@ -725,11 +733,25 @@ def A6_rotation_gate(repo, clause):
         raise AnalysisError("A6: accepted-list append is not inside the candidate loop of a group loop")
     cand_loop, group_loop = inner[0], inner[1]
     # every append to G is gated
+    from .common import implied_min_len
     for c in method_calls_on(fn, G, "append"):
-        gated = any(pol and t is gate for t, pol, k in norm_guards(fn, c))
-        obs.append(Ob("A6", clause, fn, c, gated,
-                      "append to the accepted list %s is %scontrol-dependent on the rotation re-check %s"
-                      % (G, "" if gated else "NOT ", ast.unparse(gate)[:70]), slot="gated-append"))
+        gs_c = norm_guards(fn, c, stop=group_loop)
+        gated = any(pol and t is gate for t, pol, k in gs_c)
+        # a bypass of the re-check for SMALL patterns: two atoms always rotate into place once their distance matches; three atoms do not (a bent copy of a
+        # linear pattern has all pair distances within tolerance and the middle atom off the line)
+        bypass = None
+        if not gated:
+            for t, pol, k in gs_c:
+                if isinstance(t, ast.Compare) and len(t.ops) == 1:
+                    # upper bound on a length: len(x) <= k / len(x) < k taken positively
+                    l_, r_, op_ = t.left, t.comparators[0], type(t.ops[0])
+                    if isinstance(l_, ast.Call) and call_name(l_) == "len" and isinstance(const_value(r_), int) and pol and op_ in (ast.LtE, ast.Lt):
+                        bypass = const_value(r_) if op_ is ast.LtE else const_value(r_) - 1
+        obs.append(Ob("A6", clause, fn, c, gated or (bypass is not None and bypass <= 2),
+                      ("append to the accepted list %s is %scontrol-dependent on the rotation re-check %s" % (G, "" if gated else "NOT ", ast.unparse(gate)[:70])) if bypass is None else
+                      ("candidates of patterns with up to %d atoms are accepted WITHOUT the rotation re-check%s" % (
+                          bypass, "" if bypass <= 2 else ": three atoms with matching pair distances need not rotate into place within the tolerance (a bent copy of a linear pattern passes)")),
+                      slot="gated-append", positive="robust" if (bypass is not None and bypass > 2) else False))
     # the re-check is a closeness test with the caller's tolerance, on quantities of the same length dimension
     ge = expand(fn, gate, stop_names=[chk])
     from .common import length_degree
@@ -866,7 +888,9 @@ def A6_rotation_gate(repo, clause):
     pat_shift = [c for c in calls_in(fn) if isinstance(c.func, ast.Attribute) and c.func.attr == "translate"
                  and isinstance(c.func.value, ast.Name) and c.func.value.id != chk and group_loop not in list(fn.ancestors(c))]
     if len(pat_shift) != 1 or len(tcalls) != 1:
-        raise AnalysisError("A6: origin shift of the pattern / translate of the checked copy not found uniquely")
+        obs.append(Ob("A6", clause, fn, fn.node, False, "origin shift of the pattern / translate of the checked copy not found uniquely (the re-check is not written with a translated copy)",
+                      construct="chk.translate(candidate[k])", slot="anchor-agreement", undecided=True))
+        return obs
     ps = pat_shift[0]
     pname = ps.func.value.id
     k1 = _shift_index_expr(ps.args[0], pname)
